@@ -647,7 +647,7 @@ pub fn main(ctx: &Ctx) -> i32 {
     let per_crate = ctx.tier.pick(24usize, 25usize);
     let per_method = ctx.tier.pick(40usize, 200usize);
     let mut rng = Rng::new(ctx.seed ^ 0x808);
-    let root = gen_root().join(format!("c08-{}", ctx.seed));
+    let root = gen_root().join(format!("c08-{}-{}", ctx.seed, std::process::id()));
     let _ = std::fs::remove_dir_all(&root);
     std::fs::create_dir_all(&root).unwrap();
     let mut idx = 0;
@@ -673,6 +673,21 @@ pub fn main(ctx: &Ctx) -> i32 {
         run_crate(ctx, &root, &mut rng, mods, per_method);
     }
     let _ = std::fs::remove_dir_all(&root);
+    // the driver binary and its build artefacts carry this process's id: leave nothing behind
+    let dbg = gen_root().join("target").join("debug");
+    let mine = format!("drv{}", std::process::id());
+    let _ = std::fs::remove_file(dbg.join(&mine));
+    let _ = std::fs::remove_file(dbg.join(format!("{}.d", mine)));
+    for sub in ["deps", "incremental", ".fingerprint", "build"] {
+        if let Ok(rd) = std::fs::read_dir(dbg.join(sub)) {
+            for e in rd.flatten() {
+                if e.file_name().to_string_lossy().starts_with(&mine) {
+                    let p = e.path();
+                    let _ = if p.is_dir() { std::fs::remove_dir_all(&p) } else { std::fs::remove_file(&p) };
+                }
+            }
+        }
+    }
     ctx.finish(ctx.tier.pick(2_000, 50_000))
 }
 
@@ -700,7 +715,7 @@ fn run_crate(ctx: &Ctx, root: &std::path::Path, rng: &mut Rng, mut mods: Vec<(us
         main.push_str(&calls);
         main.push_str("    std::fs::write(\"results.json\", serde_json::to_string(&serde_json::Value::Object(out)).unwrap()).unwrap();\n}\n");
         files.push(("src/main.rs".into(), main));
-        write_crate(&dir, "drv", "", &files, None);
+        write_crate(&dir, &format!("drv{}", std::process::id()), "", &files, None);
         let (ok, diags, tail) = cargo_json(&dir, &["build"]);
         if ok {
             break;
@@ -747,7 +762,7 @@ fn run_crate(ctx: &Ctx, root: &std::path::Path, rng: &mut Rng, mut mods: Vec<(us
         cases.insert(format!("m{}", i), Value::Array(make_cases(rng, &g.idl, per_method)));
     }
     std::fs::write(dir.join("cases.json"), serde_json::to_string(&Value::Object(cases.clone())).unwrap()).unwrap();
-    let bin = gen_root().join("target").join("debug").join("drv");
+    let bin = gen_root().join("target").join("debug").join(format!("drv{}", std::process::id()));
     let run = Command::new(&bin).current_dir(&dir).output();
     match run {
         Ok(o) if o.status.success() => {}
